@@ -280,9 +280,9 @@ func gen(concurrent bool) func(t *rapid.T) Case {
 }
 
 func TestHistories(t *testing.T) {
-	vfrun.Run(t, vfrun.Prop[Case]{Property: "C07", Name: "TestHistories", Gen: gen(false), Check: check}, vfrun.N(1200, 30000))
+	vfrun.Run(t, vfrun.Prop[Case]{Property: "C07", Name: "TestHistories", Gen: gen(false), Check: check}, vfrun.N(1200, 120000))
 }
 
 func TestConcurrent(t *testing.T) {
-	vfrun.Run(t, vfrun.Prop[Case]{Property: "C07", Name: "TestConcurrent", Gen: gen(true), Check: check}, vfrun.N(150, 3000))
+	vfrun.Run(t, vfrun.Prop[Case]{Property: "C07", Name: "TestConcurrent", Gen: gen(true), Check: check}, vfrun.N(150, 12000))
 }
